@@ -571,7 +571,7 @@ Qed.
 Theorem parse_print_lemma (p : body) : wf_body p = true -> parse_prog (pr_body p) = Some p.
 Proof.
   intro H. unfold parse_prog.
-  pose proof (proj1 (proj2 parse_all) p H (24 * length (pr_body p) + 24) []) as P.
+  pose proof (proj1 (proj2 parse_all) p H (100 * length (pr_body p) + 100) []) as P.
   rewrite app_nil_r in P. rewrite P; [reflexivity| |reflexivity].
   pose proof (proj1 (proj2 size_len_all) p H). lia.
 Qed.
